@@ -26,7 +26,7 @@ func servicesConfig(r *rng.R) progs.Config {
 	cfg.Consts = 1
 	cfg.Services = r.Pick(1, 2, 3)
 	cfg.Funcs = 6
-	return cfg
+	return small(cfg)
 }
 
 func servicesOptions(r *rng.R) gobuild.Options {
